@@ -1,8 +1,15 @@
 //! Implement a lock-free pair of base_time_ms and corresponding voucher
 //! with two copies and a sequence number.
+#[cfg(not(feature = "verif-hooks"))]
 use std::sync::atomic::AtomicU64;
 use std::sync::atomic::Ordering;
+#[cfg(not(feature = "verif-hooks"))]
 use std::sync::Mutex;
+
+#[cfg(feature = "verif-hooks")]
+use crate::verif_sync::AtomicU64;
+#[cfg(feature = "verif-hooks")]
+use crate::verif_sync::Mutex;
 
 #[derive(Debug)]
 struct BaseTime {
